@@ -37,6 +37,9 @@ func vhCfb(nsec int) []byte {
 	return b
 }
 
+// H11.cfb (see vhCfb for the layout): ReadFile, ListDir and stream reads on
+// an arbitrary compound file of 0..1 sectors never panic, loop beyond the
+// table length or allocate by a header count.
 func VH_C11_CfbOpen() {
 	nsec := vhConcretize(vhInt("sectors", 0, 1), 4)
 	b := vhCfb(nsec)
